@@ -790,10 +790,50 @@ def raising_operand(t: int, e: int) -> bool:
     return H.done(ok)
 
 
+# ------------------------------------------------------------------ lazy parameters passed by their public keyword name,
+# and lazy receivers handed through functions that must not materialise them
+LAZY_KW = [
+    ("[].distinct(keySelector => tick(7, $))", []),
+    ("[1, 2].distinct(keySelector => tick($, $))", [1, 2]),
+    ("[].toDict($, valueSelector => tick(7, $))", []),
+    ("[1, 2].toDict($, valueSelector => tick($, $))", [1, 2]),
+    ("[1, 2].toDict(keySelector => tick($, $), valueSelector => tick($ + 10, $))", [1, 11, 2, 12]),
+    ("[3].groupBy($, valueSelector => tick($ + 10, $)).toList()", [13]),
+    ("[].groupBy(keySelector => tick(7, $), valueSelector => tick(8, $)).toList()", []),
+    ("{a => [1]}.mergeWith({a => [2]}, listMerger => tick(5, $1 + $2))", [5]),
+    ("{a => 1}.mergeWith({b => 2}, itemMerger => tick(5, $1))", []),
+    ("[1, 2, 3, 4].select(tick($, $ * 10)).assert($.first() > 0).first()", [1]),
+    ("[1, 2, 3, 4].select(tick($, $)).defaultIfEmpty([0]).first()", [1]),
+    ("[1, 2, 3, 4].select(tick($, $)).memorize().take(2).toList()", [1, 2]),
+    ("let(m => [1, 2, 3].select(tick($, $)).memorize()) -> [$m.first(), $m.first()]", [1]),
+]
+LKBOX = [(i,) for i in range(len(LAZY_KW))]
+
+
+def lazy_keyword(t: int) -> bool:
+    """
+    pre: 0 <= t < len(LAZY_KW)
+    post: _
+    """
+    text, want = LAZY_KW[LKBOX[t][0]]
+    with H.NoTracing():
+        del L.LOG[:]
+        try:
+            yq.stmt(text, L.ENG).evaluate(context=L.CTX.create_child_context())
+            ok = list(L.LOG) == want
+        except Exception:
+            ok = False
+    return H.done(ok)
+
+
 def conditions(tier, seed):
     quick = tier == 'quick'
     t = 90 if quick else 400
-    out = [{'name': 'raising_operand', 'func': 'raising_operand', 'timeout': 200,
+    out = [{'name': 'lazy_keyword', 'func': 'lazy_keyword', 'timeout': 100,
+            'bounds': '%d expressions: lambdas passed by the convention-translated keyword of a multi-word lazy parameter '
+                      '(keySelector, valueSelector, listMerger, itemMerger) and lazy receivers passed through assert / defaultIfEmpty / '
+                      'memorize: the probe trace is exactly the per-element demand (selectors)' % len(LAZY_KW)},
+           {'name': 'raising_operand', 'func': 'raising_operand', 'timeout': 200,
             'bounds': '%d templates of short-circuit / branching / per-element functions whose SELECTED operand raises one of %d '
                       'exception classes: the error propagates, the trace is the prefix up to the raising probe (selectors)' % (
                           len(BOOM_TEXTS), len(BOOM_EXC))}]
@@ -869,6 +909,9 @@ def replay(cond, args):
                 'what': '%s%r raised %r' % (cond['name'], vals, e)}
     if ok:
         return {'reproduced': False}
+    if cond['func'] == 'lazy_keyword':
+        return {'reproduced': True, 'key': 'C11/lazy-keyword',
+                'what': '%s: probe trace %r, expected %r' % (LAZY_KW[vals['t']][0], list(L.LOG), LAZY_KW[vals['t']][1])}
     if cond['func'] == 'raising_operand':
         return {'reproduced': True, 'key': 'C11/raising-operand',
                 'what': '%s with boom raising %s: trace %r - the selected operand\'s error must propagate and nothing else be '
